@@ -1878,9 +1878,9 @@ def heavy_mate_positions(ctx, n):
 
 def check_C11(ctx):
     consts_compare(ctx, ['MATE_VALUE', 'MATE_BOUND', 'INFINITY', 'MAX_PLY'])
-    mp = mate_positions(ctx, 70 if ctx.quick else 1500)
-    mp.update(small_endgames(ctx, 12 if ctx.quick else 300))
-    mp.update(heavy_mate_positions(ctx, 10 if ctx.quick else 300))
+    mp = mate_positions(ctx, 70 if ctx.quick else 400)
+    mp.update(small_endgames(ctx, 12 if ctx.quick else 60))
+    mp.update(heavy_mate_positions(ctx, 10 if ctx.quick else 80))
     for line in load_regressions('C11'):
         mp[line] = 'regression'
     for fen, kind in mp.items():
@@ -1908,7 +1908,7 @@ def check_C11(ctx):
                     if not ok:
                         ctx.oracle_fail('mate-announcement-untrue', cmd, {'line': l, 'fen': fen, 'rules': o[:2]})
     # deeper searches on the small endgames (mate scores travel through the table with different depths and plies)
-    deep = [f for f, k in mp.items() if k == 'mate-in-3' and sum(c.isalpha() for c in f.split()[0]) <= 5][: (10 if ctx.quick else 200)]
+    deep = [f for f, k in mp.items() if k == 'mate-in-3' and sum(c.isalpha() for c in f.split()[0]) <= 5][: (10 if ctx.quick else 40)]
     for fen in deep:
         for d in (7, 8):
             cmd = f'search fen {fen} ; depth={d}'
